@@ -436,6 +436,25 @@ def _psf_problem(h, data, shape, ra, dec):
     return None
 
 
+PIX2PIX_PIXELS = [(10.0, 80.0), (80.0, 10.0), (30.0, 55.0), (99.0, 2.0), (50.0, 50.0), (2.5, 97.25)]
+
+
+def pix2pix_problem(h, x, y):
+    """with a psf map: the psf in pixel coordinates at pixel (x, y) is the sky psf AT THE SKY POSITION OF THAT PIXEL brought to the
+    pixel grid: get_psf_pix2pix(x, y) = get_psf_sky2pix(*pix2sky((x, y)))"""
+    try:
+        with quiet():
+            got = [float(v) for v in h.get_psf_pix2pix(x, y)]
+            ra, dec = h.pix2sky((x, y))
+            exp = [float(v) for v in h.get_psf_sky2pix(ra, dec)]
+    except Exception as e:  # noqa
+        return f'get_psf_pix2pix({x}, {y}) raised {type(e).__name__}: {e}'
+    if not np.allclose(got, exp, rtol=1e-12, atol=0, equal_nan=True):
+        return (f'get_psf_pix2pix({x}, {y}) = {got} but the psf at the sky position of that pixel ({ra!r}, {dec!r}) in pixel '
+                f'coordinates is {exp}')
+    return None
+
+
 def psf_finding(ctx, h, data, shape):
     """replay of Refuted/C16x_psf_map_cell.v: at a position well inside cell (2, 3) the lookup reads cell (3, 4)"""
     r, c = 2, 3
@@ -551,6 +570,10 @@ def structured_problems(ctx, rng, budget, work):
         p = psf_problem(h, data, shape, ra, dec)
         if p:
             yield {'kind': 'psfmap', 'pos': [ra, dec], 'what': p}
+    for (x, y) in PIX2PIX_PIXELS:
+        p = pix2pix_problem(h, x, y)
+        if p:
+            yield {'kind': 'psfpix', 'pixel': [x, y], 'what': p}
     k = 0
     while time.time() - t0 < budget:
         desc, hh = sep_case(rng, k)
@@ -709,6 +732,11 @@ def run_extra(ctx, model_ok=True):
         if p:
             oracle_fail('psfmap', {'kind': 'psfmap-nan', 'pos': [ra, dec], 'what': p})
         psf_finding(ctx, h, data, shape)
+        for (x, y) in PIX2PIX_PIXELS:
+            ctx.case(key=('psf-pix2pix', x, y), bucket='psf map lookup')
+            p = pix2pix_problem(h, x, y)
+            if p:
+                oracle_fail('psfmap', {'kind': 'psfpix', 'pixel': [x, y], 'what': p})
     # ---- sky_sep
     nh = 4 if quick else 20
     nsep = 0
@@ -822,6 +850,10 @@ def replay_extra(ctx, fi):
         h, data, shape = psf_fixture(work, nan_cell=(3, 4) if kind == 'psfmap-nan' else None)
         p = psf_problem(h, data, shape, *fi['pos']) if fi.get('pos') else fi.get('what')
         print('psf map 5 x 7, position:', fi.get('pos'))
+    elif kind == 'psfpix':
+        h, data, shape = psf_fixture(work)
+        p = pix2pix_problem(h, *fi['pixel'])
+        print('psf map 5 x 7 on a 100 x 100 image, pixel:', fi['pixel'])
     elif kind == 'sky_sep':
         m = c16()
         with quiet():
